@@ -129,6 +129,29 @@ def digest(obj, depth=0) -> str:
     return h.hexdigest()
 
 
+def same(a, b, ctx=None) -> bool:
+    """Bit-identical - or, for circuit fits only, the same winner with the same curve up to rounding.
+
+    numpy's SIMD kernels for power/exp/log differ from the scalar ones by an ulp for the elements handled outside the
+    vector loop, which depends on the alignment of freshly allocated arrays: two identical calls in one process can differ
+    in the last bit of a residual. An iterative fit with a flat direction (a parameter the data does not determine)
+    amplifies that into different values of that parameter at the same pseudo chi-squared (observed: 1 of 3233 thorough
+    cases, R_3 = 3381 vs 1920 at chi-squared equal to 9e-13). That is not a dependence on schedules, seeds or pool sizes."""
+    if digest(a) == digest(b):
+        return True
+    if type(a).__name__ != "FitResult" or type(b).__name__ != "FitResult":
+        return False
+    try:
+        ok = a.method == b.method and a.weight == b.weight and abs(a.pseudo_chisqr - b.pseudo_chisqr) <= 1e-9 * abs(a.pseudo_chisqr)
+        Za, Zb = np.asarray(a.impedances), np.asarray(b.impedances)
+        ok = ok and Za.shape == Zb.shape and bool(np.all(np.abs(Za - Zb) <= 1e-6 * np.abs(Za)))
+    except Exception:  # noqa: BLE001
+        return False
+    if ok and ctx is not None:
+        ctx.label("fit-differs-in-rounding-only")
+    return bool(ok)
+
+
 def describe(obj) -> str:
     for attr in ("method", "weight", "smoothing", "interpolation", "window", "pseudo_chisqr"):
         pass
@@ -184,7 +207,7 @@ def body(ctx, case):
     # (iii) repetition with a different global numpy seed, and with the same argument objects re-used
     np.random.seed(case["global_seed"] % (2**32))
     again = run_entry(entry, data, 1)
-    ctx.check(digest(again) == d_ref, "repeat-identical", case, f"{entry}: a repeated serial call differs: {describe(ref)} vs {describe(again)}")
+    ctx.check(same(again, ref, ctx), "repeat-identical", case, f"{entry}: a repeated serial call differs: {describe(ref)} vs {describe(again)}")
     if entry == "fit-constraint":
         from pyimpspec import parse_cdc
         from pyimpspec.analysis.fitting import generate_fit_identifiers
@@ -195,7 +218,7 @@ def body(ctx, case):
         shared = {"constraint_expressions": {ident[rs[2]].R: f"alpha * {ident[rs[1]].R}"}, "constraint_variables": {"alpha": dict(value=0.6, min=0.1, max=5.0)}}
         a = run_entry(entry, data, 1, shared)
         b = run_entry(entry, data, 1, shared)
-        ctx.check(digest(a) == d_ref and digest(b) == d_ref, "repeat-identical", case, f"{entry}: re-using the same constraint dictionaries changes the result: {describe(ref)} / {describe(a)} / {describe(b)}")
+        ctx.check(same(a, ref, ctx) and same(b, ref, ctx), "repeat-identical", case, f"{entry}: re-using the same constraint dictionaries changes the result: {describe(ref)} / {describe(a)} / {describe(b)}")
     # (i) harness-owned schedule
     sched = Schedule(case["keys"])
     with patched_pools(make_pool_class(sched)):
@@ -205,7 +228,7 @@ def body(ctx, case):
             ctx.fail("schedule-independent", case, f"{entry}: serial run returned a result, the pooled run raised {type(e).__name__}: {e}")
             fp = None
     if fp is not None:
-        ctx.check(digest(fp) == d_ref, "schedule-independent", case,
+        ctx.check(same(fp, ref, ctx), "schedule-independent", case,
                   f"{entry}: delivery orders {sched.used[:3]} give {describe(fp)}; serial reference {describe(ref)}")
     if sched.nontrivial:
         labels.add("fakepool:permuted")
@@ -258,7 +281,7 @@ def body_real(ctx, case):
     data = _data(case["spec"])
     ref = run_entry(case["entry"], data, 1)
     got = run_entry(case["entry"], data, case["num_procs"])
-    ctx.check(digest(got) == digest(ref), "num-procs-independent", case, f"{case['entry']}: num_procs={case['num_procs']} gives {describe(got)}; serial {describe(ref)}")
+    ctx.check(same(got, ref, ctx), "num-procs-independent", case, f"{case['entry']}: num_procs={case['num_procs']} gives {describe(got)}; serial {describe(ref)}")
     ctx.record(case, True, ["real-pool", "entry:" + case["entry"], f"num_procs:{case['num_procs']}"])
 
 
